@@ -369,6 +369,8 @@ void getOffsetAndCount(const Tag &tag, const DataArray &array, NDSize &offset, N
         position.pop_back();
         extent.pop_back();
     }
+    // dimensions the tag does not specify are padded with the pair (first coordinate, last coordinate)
+    const size_t specified = position.size();
     while (position.size() < dim_count) {
         position.push_back(get<0>(max_extents[position.size()]));
         extent.push_back(get<1>(max_extents[extent.size()]));
@@ -387,14 +389,16 @@ void getOffsetAndCount(const Tag &tag, const DataArray &array, NDSize &offset, N
     NDSize temp_offset(position.size());
     NDSize temp_count(position.size(), 1);
     for (size_t i = 0; i < position.size(); ++i) {
+        // for a padded dimension extent[i] holds the last coordinate, not an extent
+        const double end_position = i < specified ? position[i] + extent[i] : extent[i];
         vector<optional<pair<ndsize_t, ndsize_t>>> ranges = positionToIndex({position[i]},
-                                                                             {position[i] + extent[i]},
+                                                                             {end_position},
                                                                              {units[i]},
                                                                              match,
                                                                              dimensions[i]);
         if (!ranges[0]) {
             optional<ndsize_t> ofst = positionToIndex(position[i], units[i], PositionMatch::GreaterOrEqual, dimensions[i]);
-            if (extent[i] != 0. || !ofst) {
+            if ((i < specified && extent[i] != 0.) || !ofst) {
                 throw nix::OutOfBounds("util::offsetAndCount:An invalid range was encountered!");
             }
             temp_offset[i] = *ofst;
